@@ -226,12 +226,21 @@ var c11Flows = []string{"Validate", "ValidateWithConfiguration", "CompileProfile
 func init() {
 	Register(Meta{
 		ID: "C11", Level: "model_checking",
-		Rule: "model: per entry point an automaton over (next stage, started?, channel closed?, returned?, failed?) accepting exactly the prefixes of Start/Done pairs in pipeline order with the documented closing rule; all reachable model states are enumerated and self-checked. Conformance: 6 entry flows (Validate, ValidateWithConfiguration, CompileProfile alone, CompileProfile->ValidateCompiled, ->ValidateCompiledWithConfiguration, compile then two validations each with a new channel) x 18 faults (none x3, 6 profile faults in parsing, unknown prefix in generation, 2 in Rego compilation, 2 data parsing, 2 normalisation, evaluation error, empty result set from a caller-built query) x channel capacity {0,1,64} x consumer {collector, milestones.GenerateMilestonesFromEvents}: the observed event sequence, the closure (observed without timers: closing a closed channel panics) and the milestones are run through the automaton; each fault is first asserted to arise in its intended stage. Non-trivial = run with a fault; distinct by (flow, fault, capacity, consumer).",
+		Rule:        "model: per entry point an automaton over (next stage, started?, channel closed?, returned?, failed?) accepting exactly the prefixes of Start/Done pairs in pipeline order with the documented closing rule; all reachable model states are enumerated and self-checked. Conformance: 6 entry flows (Validate, ValidateWithConfiguration, CompileProfile alone, CompileProfile->ValidateCompiled, ->ValidateCompiledWithConfiguration, compile then two validations each with a new channel) x 18 faults (none x3, 6 profile faults in parsing, unknown prefix in generation, 2 in Rego compilation, 2 data parsing, 2 normalisation, evaluation error, empty result set from a caller-built query) x channel capacity {0,1,64} x consumer {collector, milestones.GenerateMilestonesFromEvents}: the observed event sequence, the closure (observed without timers: closing a closed channel panics) and the milestones are run through the automaton; each fault is first asserted to arise in its intended stage. Non-trivial = run with a fault; distinct by (flow, fault, capacity, consumer).",
 		Assumptions: []string{"a failing stage may or may not emit its completion event (the statement allows both)"},
 	}, func(tier string, emit func(c11Case)) {
 		for _, fl := range c11Flows {
 			for _, f := range c11Faults() {
 				emit(c11Case{Flow: fl, Fault: f.name})
+			}
+		}
+		if tier == "thorough" {
+			// every ordered pair of faults across two consecutive validating calls (each with its own channel): what
+			// the first call did must not change the bracketing or closing of the second
+			for _, f1 := range c11Faults() {
+				for _, f2 := range c11Faults() {
+					emit(c11Case{Flow: "Validate;Validate", Fault: f1.name + ";" + f2.name})
+				}
 			}
 		}
 	}, c11Run)
@@ -309,6 +318,17 @@ func c11Call(capacity int, useMilestones bool, call func(ch *chan events.Event) 
 }
 
 func c11Run(c *Ctx, cs c11Case) {
+	if cs.Flow == "Validate;Validate" {
+		names := strings.SplitN(cs.Fault, ";", 2)
+		for k, nm := range names {
+			sub := c11Case{Flow: "ValidateWithConfiguration", Fault: nm}
+			if k == 1 {
+				sub.Flow = "Validate"
+			}
+			c11Run(c, sub)
+		}
+		return
+	}
 	var f c11Fault
 	for _, x := range c11Faults() {
 		if x.name == cs.Fault {
